@@ -10,14 +10,18 @@ THEOREMS = ['interval_exact', 'inverted_is_empty', 'filter_eq_delete', 'innermos
 LEVEL = 'proof'
 RULE = ('logs with days in any order and repeated dates x every (begin, end) over a 5-day window incl. absent / equal / inverted / outside x '
         '{reg, bal, csv log, print, report totals / quantity / unresolved} x flag position {global, sub-command, both with different values} x keywords '
-        '(today, yesterday, last7, last30) against --today x summary DATE x TZ {UTC, America/New_York, Pacific/Kiritimati} (in-process zone and the real binary); '
+        '(today, yesterday, last7, last30) against --today, also across daylight-saving switches of the process zone (New York, Berlin, Lord Howe) x summary DATE x TZ {UTC, America/New_York, Pacific/Kiritimati} (in-process zone and the real binary); '
         'metamorphic oracle: output with a period = output on the file with the other days deleted; non-trivial = a bound that falls on a logged day or an unsorted / repeated log; '
         'distinct by (log hash, command, bounds, position, zone)')
-ASSUMPTIONS = ['naturaldate free-text dates and DST transitions are outside the model', '--today fixes the current date (a UTC midnight)']
+ASSUMPTIONS = ['naturaldate free-text dates are outside the model; the model has no zones (a heading is a UTC midnight), daylight-saving switches are exercised on the implementation by the metamorphic oracle', '--today fixes the current date (a UTC midnight)']
 
 CMDS = [(['reg'], True), (['bal'], True), (['csv', 'log'], True), (['print'], True), (['report', 'totals'], False), (['report', 'quantity'], False), (['report', 'unresolved'], False)]
 TZS = ['UTC', 'America/New_York', 'Pacific/Kiritimati']
 DAYS = WINDOW[:5]
+# (zone, day of a daylight-saving switch)
+DST = [('America/New_York', datetime.date(2021, 3, 14)), ('America/New_York', datetime.date(2021, 11, 7)),
+       ('Europe/Berlin', datetime.date(2021, 3, 28)), ('Europe/Berlin', datetime.date(2021, 10, 31)),
+       ('Australia/Lord_Howe', datetime.date(2021, 4, 4)), ('Australia/Lord_Howe', datetime.date(2021, 10, 3))]
 
 
 def render(g, log, layout):
@@ -92,6 +96,27 @@ def gen(g, nlogs, tier):
                 k = app(['csv', 'log'], {b'food.yaml': bookfile, b'log.yaml': render(g, kept, layout)}, g=gf, kind='csv log (deleted)', tz=tz, today_date=today)
                 a.meta.update({'pair': k, 'b': kw, 'e': which, 'pos': 'global', 'log': log})
                 cases += [a, k]
+        # keywords across a daylight-saving switch of the process zone: the day arithmetic must not pick up the hour
+        if n % 2 == 0:
+            import os
+            for tz, T in DST:
+                if not os.path.exists('/usr/share/zoneinfo/' + tz):
+                    continue
+                for kw, delta in (('yesterday', 1), ('last7', 7), ('last30', 30)):
+                    today = T + datetime.timedelta(days=r.randint(1, delta))
+                    bound = today - datetime.timedelta(days=delta)
+                    days = [bound - datetime.timedelta(days=1), bound, bound + datetime.timedelta(days=1), today]
+                    dlog = [(d, [(r.choice([b'a/b', b'c', b'milk/1l']), g.qty_exact(small=True))], []) for d in days]
+                    which = r.choice(['begin', 'end'])
+                    gf = {'today': fmt(today)}
+                    if layout != '2006/01/02':
+                        gf['dateFormat'] = layout
+                    kept = [(d, ents, ns) for d, ents, ns in dlog if (d >= bound if which == 'begin' else d <= bound)]
+                    path = r.choice([['csv', 'log'], ['print'], ['reg']])
+                    a = app(path, {b'food.yaml': bookfile, b'log.yaml': render(g, dlog, layout)}, g=dict(gf, **{which: kw}), kind=' '.join(path) + ' dst kw:' + kw, tz=tz, today_date=today)
+                    k = app(path, {b'food.yaml': bookfile, b'log.yaml': render(g, kept, layout)}, g=gf, kind=' '.join(path) + ' dst (deleted)', tz=tz, today_date=today)
+                    a.meta.update({'pair': k, 'b': kw, 'e': which, 'pos': 'global', 'log': dlog})
+                    cases += [a, k]
         for d in DAYS[1:4]:
             for arg, today in ((fmt(d), datetime.date(2021, 1, 28)), ('today', d), ('yesterday', d + datetime.timedelta(days=1))):
                 tz = r.choice(TZS)
